@@ -4,7 +4,8 @@
    composite theorem, not an axiom. That flipping a bit of message/signature/key is rejected is a computational
    property of Ed25519 (unforgeability) and is only observed on the implementation. *)
 From Coq Require Import ZArith List.
-From Strand Require Import Model.Outcome Model.Codec Model.Base64 Proofs.CodecP Proofs.Base64P.
+From Strand Require Import Model.Outcome Model.Codec Model.Base64 Proofs.CodecP Proofs.Base64P
+  Base.ZpField Base.Edwards Model.RistrettoFast Proofs.RistrettoGroup Proofs.Ed25519Group.
 Import ListNotations.
 Open Scope Z_scope.
 
@@ -70,3 +71,17 @@ Proof.
   split; [intros sig; exact (verify_never_panics K PM pk sig msg)|intros seed; exact (signature_has_64_bytes K PM seed msg)].
 Qed.
 Print Assumptions C20_malleated_and_misformed_signatures_rejected.
+
+(* the algebraic core of "every signed message verifies", on the executable Ed25519 model and from the PROVED group law of
+   the curve (no group hypothesis): for every secret scalar a, nonce r and challenge k, with A = [a]B, R = [r]B and
+   S = (r + k a) mod l, the point R - ([k](-A) + [S]B) examined by both verification rules is the neutral element, so the
+   cofactored (ZIP-215) test of the model succeeds. The byte layer of a signature (decompress inverts compress) is not
+   part of this statement. *)
+Theorem C20_verification_equation_complete : forall (K : Kernel) (PM : PMul) a r k, 0 <= a -> 0 <= r -> 0 <= k ->
+  let B := pt_base K in
+  let A := pm_mul PM a B in
+  let R := pm_mul PM r B in
+  let s := sc_add K r (sc_mul K k a) in
+  ed_is_identity (ed_mul8 K (pt_add K R (pt_neg K (ed_rprime K PM A k s)))) = true.
+Proof. exact ed_equation_complete. Qed.
+Print Assumptions C20_verification_equation_complete.
